@@ -59,7 +59,9 @@ func (v *VarDef) write(buf *bytes.Buffer) {
 	_, _ = buf.WriteString("$")
 	_, _ = buf.WriteString(v.Name)
 	_, _ = buf.WriteString(": ")
-	_, _ = buf.WriteString(v.Type.Name())
+	if v.Type != nil { // can be missing in a document that did not validate
+		_, _ = buf.WriteString(v.Type.Name())
+	}
 	if v.Default != nil {
 		_, _ = buf.WriteString(" = ")
 		_, _ = buf.WriteString(valueString(v.Default))
